@@ -4,8 +4,9 @@ Three kinds of decision procedure, none of them tied to a statement shape:
 
 * provenance (`Prov`): list values are followed as "order-preserving image of a source list with element function f"
   through `list()/tuple()`, comprehensions and generator expressions without filter, `zip/enumerate/map`, accumulator
-  loops (`acc = []; for x in S: ...; acc.append(E)` with exactly one append per iteration, also a hand-written running
-  sum), single assignments, NamedTuple / tuple packing and helper parameters; scalar values along the symbolic paths of
+  loops (`acc = []; for x in S: ...; acc.append(E)` with exactly one append per iteration - a `continue` *behind* the
+  append, the guard clause for the rest of the body, ends an iteration that has appended; a `break`, or a `continue`
+  above the append, can skip - also a hand-written running sum), single assignments, NamedTuple / tuple packing and helper parameters; scalar values along the symbolic paths of
   a function (`sa.rules.c07.Sym`).  `sorted/set/reversed`, directory listings (`glob/iterdir/os.listdir`), slices,
   filters and in-place `.sort()/.reverse()/shuffle` break the image - definitely.  A derivation the engine does not
   know is UNDECIDED, never a violation.
@@ -19,7 +20,12 @@ Three kinds of decision procedure, none of them tied to a statement shape:
   the code computes from constants and from what the tables vary has a value; paths, files and library calls are
   opaque; a branch on an opaque test forks, and a raise that hangs on such a branch is somebody else's refusal; a
   branch on something read from an input store that the model does not know is UNDECIDED.  Helpers (private functions
-  of the module, nested functions, lambdas) are entered.
+  of the module, nested functions, lambdas) are entered.  Helper *objects* are modelled: `K(...)` for a plain class K of
+  the repository makes an instance and interprets `__init__` on it; its methods and properties are entered, `with K(...)
+  as k` runs `__enter__` and, where the body is left without an exception, `__exit__`; an attribute the instance has not
+  bound itself is the object of the *class* (bound once in the class body, one object for all instances), so
+  `self.acc += [...]` / `self.acc.append(..)` on a class-level list changes that one object; default values of parameters
+  are likewise one object per function.  This state of the process survives a run (`run(carry=...)`).
 * symbolic paths (`Sym`) with exact normal forms for the locate arithmetic.
 
 R1  order preservation.  (a) `_check_merge_arguments` returns, on every return path, the caller's list element for
@@ -39,7 +45,10 @@ R1  order preservation.  (a) `_check_merge_arguments` returns, on every return p
 R2  refusals present (their position before any file-system effect is C10-R2), by bounded interpretation of `merge`:
     every sequence of up to three inputs whose field-set names are not all equal reaches a raise (subset, superset and
     same-size-different-names cases, in every position), and so does every sequence that mixes identified and
-    unidentified inputs; the uniform sequences are accepted.  A failing `assert` is not a refusal.  (Sets of names,
+    unidentified inputs; the uniform sequences are accepted: a uniform sequence (a single input included) that reaches a
+    raise of merge on every interpreted path is a violation - a valid list is refused - and the report says which
+    sequences are refused and which mixed ones pass (e.g. exactly those in which all inputs but the first agree: the
+    first input takes no part in the test).  A failing `assert` is not a refusal.  (Sets of names,
     sets of frozensets / tuples of names, every set operator and comparison are evaluated; a violation says what the
     accepted sequences have in common: one-sided comparison, sizes compared.)
 R3  locate arithmetic, per path of `_load_trajectory` to a record read under "size table exists": the file position
@@ -57,8 +66,12 @@ R5  merged index (C08-R3).  (a) The stores the builder opens and walks are an or
     integer) to the position of its trajectory in the concatenation of the parts in the order given.  The builder is
     handed, per input, what merge hands it: the input itself, or the element of merge's argument evaluated on the model
     input (a record / pair of the input's name and `len(<store opened on it>)`, ...), so a count taken from that
-    record is the model's count exactly when merge recorded the length of that input.  (When (b) cannot be decided
-    the shape rule `c08.rule_offsets` is used.)
+    record is the model's count exactly when merge recorded the length of that input.  The builder may keep its
+    accumulators in a helper object (writer class, context manager).  (c) A merge is not the only one of its process:
+    when the builder leaves mutable state behind that outlives the call (a list / dict bound in a class body, a mutable
+    parameter default), it is interpreted a second time with that state carried over and must store the right index
+    again; if not, the report names the attribute that carries the entries of the earlier call over.  (When (b) cannot
+    be decided the shape rule `c08.rule_offsets` is used.)
 R6  the merged index is built for every uniformly identified sequence of 1..3 inputs and for no unidentified one (the
     reader of a merged store consults nothing else) - by the same interpretation of `merge` as R2.
 """
@@ -154,8 +167,8 @@ class _Sym(Sym):
     it was moved to)"""
     enter = None
 
-    def _summarisable(self, c: ast.Call):
-        r = Sym._summarisable(self, c)
+    def _summarisable(self, c: ast.Call, *state):
+        r = Sym._summarisable(self, c, *state)
         if r is not None or self.enter is None or self.depth >= 2:
             return r
         try:
@@ -396,8 +409,14 @@ class Prov:
             return Broken(f'the append to `{base}` is conditional', False)
         if any(isinstance(a, (ast.For, ast.AsyncFor, ast.While)) for a in ancestors(loop)) or loop.orelse:
             return Broken(f'the loop filling `{base}` is nested', False)
-        if any(isinstance(x, (ast.Break, ast.Continue)) for x in walk_no_nested(loop)):
+        # an iteration that is begun must reach the append: a `continue` behind it (guard clause for the rest of the body)
+        # ends an iteration that has already appended; a `break` anywhere, or a `continue` above the append, can skip
+        pos = next(i for i, b in enumerate(loop.body) if b is st)
+        early = [x for b in loop.body[:pos] for x in _loop_exits(b)] + \
+                [x for b in loop.body[pos:] for x in _loop_exits(b) if isinstance(x, ast.Break)]
+        if early:
             return Broken(f'the loop filling `{base}` can skip iterations (break / continue)', False)
+        late_continue = any(True for b in loop.body[pos:] for x in _loop_exits(b))
         try:
             hits = self.sym(fn, lambda n: n is st).hits
         except SymUndecided as ex:
@@ -410,7 +429,9 @@ class Prov:
             return s
         self.lists.add(base)
         val = next(iter(vals.values()))
-        run = self._running_sum(fn, loop, val)
+        run = self._running_sum(fn, loop, val) if not late_continue else None
+        if late_continue and isinstance(val, ast.BinOp) and self._running_sum(fn, loop, val) is not None:
+            return Broken(f'the counter appended to `{base}` is advanced in a loop that can end an iteration early', False)
         if run is not None:
             val = ast.Call(func=ast.Name(id=RUNSUM, ctx=ast.Load()), args=[run], keywords=[])
         return Seq(s.src, self.simp(subst(val, bind_target(loop.target, s.elem, f'@{loop.lineno}'))))
@@ -459,6 +480,30 @@ class Prov:
             if hs and all(_strip(h.ev(adv)) == _strip(e) for h in hs):
                 return e
         return None
+
+
+def _loop_exits(s: ast.stmt):
+    """the `break` / `continue` statements inside statement s that end an iteration of the loop s is a body statement of
+    (those of loops nested in s belong to those loops; nested functions are not entered)"""
+    out = []
+
+    def go(x, inner):
+        if isinstance(x, (ast.Break, ast.Continue)):
+            if not inner:
+                out.append(x)
+            return
+        if isinstance(x, (ast.FunctionDef, ast.AsyncFunctionDef, ast.ClassDef, ast.Lambda)):
+            return
+        if isinstance(x, (ast.For, ast.AsyncFor, ast.While)):
+            for b in x.body:
+                go(b, True)
+            for b in x.orelse:
+                go(b, inner)
+            return
+        for c in ast.iter_child_nodes(x):
+            go(c, inner)
+    go(s, False)
+    return out
 
 
 def _enclosing_loop(n: ast.AST):
@@ -1325,6 +1370,9 @@ ID_ATTRS = ('index_group', 'indexable')          # identifier information of an 
 STORE_ATTRS = ID_ATTRS + ('_nc',)                 # … and its field sets: what the tables vary
 
 
+PROCESS_STATE = ('classes', 'classes0', 'defaults', 'defaults0')     # entries of `_St.flags` that outlive a call
+
+
 class TTUndecided(Exception):
     pass
 
@@ -1454,6 +1502,18 @@ _NO = object()
 def _is_model(v: 'AV') -> bool:
     """AV('o', ('model', {attribute: value}, {names of the attributes the table varies}))"""
     return v.k == 'o' and isinstance(v.v, tuple) and len(v.v) == 3 and v.v[0] == 'model'
+
+
+def _is_inst(v: 'AV') -> bool:
+    """AV('o', ('inst', {attribute: value}, (file, qualified name of the class))): an instance of a plain class of the
+    repository (a helper object that holds state: accumulator, writer, context manager).  Its own attributes are in the
+    dictionary; what the class body binds is looked up in the state of the class, which is *one* set of values per process
+    (`_St.flags['classes']`): shared by all instances and kept between calls"""
+    return v.k == 'o' and isinstance(v.v, tuple) and len(v.v) == 3 and v.v[0] == 'inst'
+
+
+_CM_BASES = {'object', 'AbstractContextManager', 'contextlib.AbstractContextManager', 'ContextDecorator',
+             'contextlib.ContextDecorator'}
 
 
 def _concrete(v: AV):
@@ -1617,6 +1677,7 @@ class _St:
 class TruthTable:
     def __init__(self, prog, fi, identified, input_list_call, builder_name=None, cap=400, fieldsets=None):
         self.prog, self.fi, self.identified, self.cap = prog, fi, tuple(identified), cap
+        self.root_fi = fi
         self.fieldsets = tuple(fieldsets) if fieldsets is not None else tuple(frozenset({'base'}) for _ in self.identified)
         self.input_list_call = input_list_call       # name of the helper whose result is the input list
         self.builder_name = builder_name             # name of the merged-index builder (calls are counted per path)
@@ -1746,6 +1807,8 @@ class TruthTable:
         if _is_model(b):
             # a model object: the attributes the table varies are known, the others are anything
             return b.v[1][attr] if attr in b.v[1] else AV('u', None, attr in b.v[2])
+        if _is_inst(b):
+            return self.inst_attribute(b, attr, st)
         if b.k == 'o' and b.v == 'store' and b.elem is not None:
             # a store opened on input k: what the tables vary is known, everything else is read from the file
             k = b.elem
@@ -2060,6 +2123,13 @@ class TruthTable:
             if len(elems) == 1:
                 return AV('o', 'store', True, next(iter(elems)))
             return AV('u', None, True)
+        # a method of a helper object of the repository
+        if recv is not None and _is_inst(recv):
+            meth = self.inst_method(recv, e.func.attr)
+            if meth is not None:
+                return self.apply(self.fn(meth.node, meth), args, kw, st, e, method_recv=recv)
+            f = self.inst_attribute(recv, e.func.attr, st)
+            return self.apply(f, args, kw, st, e) if f.k == 'f' else self.unknown([recv] + args + list(kw.values()))
         # a method of a concrete container
         if recv is not None and recv.k in ('l', 't', 's', 'd', 'a'):
             r = self.method(recv, e.func.attr, args, kw, st, e)
@@ -2074,6 +2144,10 @@ class TruthTable:
             r = self.builtin(e.func.id, args, kw, st, e)
             if r is not None:
                 return r
+        if not (isinstance(e.func, ast.Name) and e.func.id in st.env):
+            inst = self.instantiate(e, args, kw, st)
+            if inst is not None:
+                return inst
         # a helper of the repository that is handed identifier information or (objects made from) the inputs
         parts = ([recv] if recv is not None else []) + args + list(kw.values())
         if any(_deep(p) or _deep(p, 'elem') for p in parts):
@@ -2114,6 +2188,99 @@ class TruthTable:
                     return None
                 vals[f] = self.ev(defaults[f], _St())
         return AV('r', {f: vals[f] for f in fields})
+
+    # ---- helper objects: instances of plain classes of the repository ---------------------------------------------
+    def _plain_class(self, cls) -> bool:
+        """a class whose instances this interpreter can hold: an ordinary class (not a record, an enumeration, an
+        exception, a protocol; no metaclass) whose bases are ordinary classes of the repository; not the class of the
+        function under interpretation (its instances are the stores the model provides)"""
+        seen = []
+        for c in cls.mro():
+            if c.node.keywords or any('dataclass' in norm(d) for d in c.node.decorator_list):
+                return False
+            if len([b for b in c.base_exprs if str(b) not in _CM_BASES]) != len(c.bases):
+                return False
+            if any(isinstance(x, (ast.Yield, ast.YieldFrom, ast.Await)) for mth in c.methods.values()
+                   for x in walk_no_nested(mth.node)):
+                return False
+            seen.append(c)
+        root = getattr(self.root_fi, 'cls', None)
+        return not (root is not None and any(c is root or c.name == root.name for c in seen))
+
+    @staticmethod
+    def _class_key(cls):
+        return cls.module.relpath, next((q for q, k in cls.module.classes.items() if k is cls), cls.name)
+
+    def class_state(self, cls, st: _St) -> dict:
+        """the values bound in the body of the class: evaluated once (when the class is first used on this path) and
+        kept - they belong to the class, not to an instance"""
+        key = self._class_key(cls)
+        cs = st.flags.setdefault('classes', {})
+        if key not in cs:
+            vals: dict = {}
+            for a, e in cls.class_assignments().items():
+                if e is not None:
+                    vals[a] = self.ev(e, _St(dict(vals)))
+            cs[key] = vals
+            st.flags.setdefault('classes0', {})[key] = {a: repr(v) for a, v in vals.items()}
+        return cs[key]
+
+    def inst_class(self, inst: AV):
+        rel, q = inst.v[2]
+        try:
+            return self.prog.module(rel).classes.get(q)
+        except Exception:
+            return None
+
+    def inst_method(self, inst: AV, name: str):
+        """the function that `inst.name(...)` calls, unless the instance or the class body binds the name to a value"""
+        cls = self.inst_class(inst)
+        if cls is None or name in inst.v[1]:
+            return None
+        for c in cls.mro():
+            if name in c.methods:
+                decs = [d.split('.')[-1].split('(')[0] for d in c.methods[name].decorators()]
+                return c.methods[name] if all(d in ('staticmethod', 'classmethod') for d in decs) else None
+            if c.class_assignments().get(name) is not None:
+                return None
+        return None
+
+    def inst_attribute(self, inst: AV, attr: str, st: _St) -> AV:
+        if attr in inst.v[1]:
+            return inst.v[1][attr]
+        cls = self.inst_class(inst)
+        for c in (cls.mro() if cls is not None else []):
+            if attr in c.methods:
+                meth = c.methods[attr]
+                decs = [d.split('.')[-1].split('(')[0] for d in meth.decorators()]
+                if decs in (['property'], ['cached_property']):
+                    call = ast.Call(func=ast.Name(id=attr, ctx=ast.Load()), args=[], keywords=[])
+                    return self.apply(self.fn(meth.node, meth), [], {}, st, call, method_recv=inst)
+                return self.made_from([inst], f'.{attr}')
+            state = self.class_state(c, st)
+            if attr in state:
+                return state[attr]          # the object of the class itself: the same one for every instance
+        return AV('u')
+
+    def instantiate(self, call: ast.Call, args, kw, st: _St) -> AV | None:
+        """`K(...)` for a plain class K of the repository: a new object, `__init__` interpreted on it"""
+        mod = getattr(self.fi, 'module', None)
+        if mod is None or not isinstance(call.func, (ast.Name, ast.Attribute)):
+            return None
+        cls = class_of(self.prog, mod, call.func)
+        if cls is None or not self._plain_class(cls):
+            return None
+        inst = AV('o', ('inst', {}, self._class_key(cls)))
+        for c in cls.mro():
+            self.class_state(c, st)
+        init = cls.find_method('__init__')
+        if init is None:
+            return inst if not args and not kw else None
+        try:
+            self.apply(self.fn(init.node, init), args, kw, st, call, method_recv=inst, strict=True)
+        except _CannotEnter:
+            return None
+        return inst
 
     def call_value(self, f: AV, args, st, call) -> AV:
         """f(*args) for a function value: a local function / lambda, or an item / attribute getter"""
@@ -2294,12 +2461,14 @@ class TruthTable:
             return None
         return callee
 
-    def apply(self, f: AV, args, kw, st: _St, call, method_recv=None):
+    def apply(self, f: AV, args, kw, st: _St, call, method_recv=None, strict=False):
         """value of calling a local function, a lambda or a repository helper on this path; the callee's own forks
         must agree (the statement-level pre-evaluation `precall` handles the ones that do not)"""
         try:
             outs = self.call_paths(f, args, kw, st, call, method_recv)
         except _CannotEnter as ex:
+            if strict:
+                raise
             return self.not_entered(f, args, kw, method_recv, call, ex)
         outs = [(s, c) for s, c in outs if not (c[0] == 'raise' and not c[1])]
         if not outs:
@@ -2365,7 +2534,18 @@ class TruthTable:
             if p not in bound:
                 if p not in defaults:
                     raise _CannotEnter(f'call shape of {call_name(call)}')
-                bound[p] = self.ev(defaults[p], _St())
+                d = defaults[p]
+                if isinstance(d, (ast.List, ast.Dict, ast.Set, ast.Call, ast.ListComp, ast.DictComp, ast.SetComp)):
+                    # a default value is evaluated once, when the function is defined: every call that leaves the parameter
+                    # out gets the same object
+                    kept = st.flags.setdefault('defaults', {})
+                    key = (getattr(d, 'lineno', 0), getattr(d, 'col_offset', 0), p, node.name if hasattr(node, 'name') else '')
+                    if key not in kept:
+                        kept[key] = self.ev(d, _St())
+                        st.flags.setdefault('defaults0', {})[key] = repr(kept[key])
+                    bound[p] = kept[key]
+                else:
+                    bound[p] = self.ev(d, _St())
         env.update(bound)
         sub = _St(env, {}, st.under, st.flags, st)
         self.depth += 1
@@ -2680,7 +2860,7 @@ class TruthTable:
                 b.k, b.v, b.dep = 'u', None, _deep(b) or _deep(v) or _deep(i)
         elif isinstance(t, ast.Attribute):
             b = self.ev(t.value, st)
-            if _is_model(b):
+            if _is_model(b) or _is_inst(b):
                 b.v[1][t.attr] = v
         elif isinstance(t, ast.Starred):
             self.bind(t.value, v, st)
@@ -2849,6 +3029,33 @@ class TruthTable:
                     st.env[s.target.id] = AV('s', f(cur.v, v.v), cur.dep or v.dep)
                     return [(st, None)]
                 st.env[s.target.id] = self._binop_values(s.op, cur, v, st, s)
+            elif isinstance(s.target, ast.Attribute) and _is_inst(self.ev(s.target.value, st)):
+                # `obj.a += v`: the object that `obj.a` finds (its own, or the one of the class) is changed in place if it is
+                # a list, and the result becomes the instance's attribute
+                b = self.ev(s.target.value, st)
+                cur = self.inst_attribute(b, s.target.attr, st)
+                if cur.k == 'l' and isinstance(s.op, ast.Add):
+                    q = _seq(v)
+                    if q is not None:
+                        cur.v.extend(q)
+                    else:
+                        cur.k, cur.v, cur.dep = 'u', None, _deep(cur) or _deep(v)
+                    b.v[1][s.target.attr] = cur
+                else:
+                    b.v[1][s.target.attr] = self._binop_values(s.op, cur, v, st, s)
+            elif isinstance(s.target, ast.Subscript) and not isinstance(s.target.slice, ast.Slice):
+                # `box[k] += v` on a concrete list / dictionary: the element is replaced by the combined value
+                b, i = self.ev(s.target.value, st), self.ev(s.target.slice, st)
+                cur = None
+                if i.k == 'c' and not isinstance(i.v, bool):
+                    if b.k == 'l' and isinstance(i.v, int) and -len(b.v) <= i.v < len(b.v):
+                        cur = b.v[i.v]
+                    elif b.k == 'd' and i.v in b.v:
+                        cur = b.v[i.v]
+                if cur is not None and cur.k == 'c' and v.k == 'c':
+                    b.v[i.v] = self._binop_values(s.op, cur, v, st, s)
+                else:
+                    self.bind(s.target, self.unknown([v]), st)
             else:
                 self.bind(s.target, self.unknown([v]), st)
             return [(st, None)]
@@ -2922,11 +3129,32 @@ class TruthTable:
                 out += self._skip_loop(s, s1, AV('u'))
             return out
         if isinstance(s, (ast.With, ast.AsyncWith)):
+            managers = []
             for it in s.items:
                 v = self.ev(it.context_expr, st)
+                if _is_inst(v):
+                    # a context manager of the repository: `__enter__` gives the value bound, `__exit__` runs when the body
+                    # is left (here: on the paths that leave it without an exception)
+                    ent, ext = self.inst_method(v, '__enter__'), self.inst_method(v, '__exit__')
+                    if ent is None or ext is None:
+                        raise TTUndecided(f'`with {norm(it.context_expr)[:50]}`: not a context manager that can be interpreted')
+                    managers.append((f'__manager_{id(it.context_expr)}__', ext, it.context_expr))
+                    st.env[managers[-1][0]] = v
+                    v = self.apply(self.fn(ent.node, ent), [], {}, st, it.context_expr, method_recv=v)
                 if it.optional_vars is not None:
                     self.bind(it.optional_vars, v, st)        # (`with Store.open(…) as ts`, `with open(…) as f`)
-            return self.block(s.body, [st])
+            res = self.block(s.body, [st])
+            if not managers:
+                return res
+            out = []
+            for s1, c in res:
+                if c is not None and c[0] == 'raise':
+                    out.append((s1, c))
+                    continue
+                for key, ext, node in reversed(managers):
+                    self.apply(self.fn(ext.node, ext), [AV('c', None)] * 3, {}, s1, node, method_recv=s1.env[key])
+                out.append((s1, c))
+            return out
         if isinstance(s, ast.Try) or type(s).__name__ == 'TryStar':
             out = []
             for s1, c in self.block(s.body, [st]):
@@ -3034,7 +3262,9 @@ class TruthTable:
         return [(st, None)]
 
     # ---- driver -----------------------------------------------------------------------------------------------
-    def run(self, list_param: str | None, keep_flags: bool = False, bindings: dict | None = None):
+    def run(self, list_param: str | None, keep_flags: bool = False, bindings: dict | None = None, carry: dict | None = None):
+        """carry: the record (`flags`) of a path of an earlier run - what lives as long as the process (the values bound in
+        class bodies, the default values of parameters) is taken over from it: this run is a later call in the same process"""
         node = self.fi.node
         a = node.args
         env = {}
@@ -3054,7 +3284,11 @@ class TruthTable:
             else:
                 env[p] = AV('o', p)
         env['__inputs__'] = inputs
-        outs = self.block(node.body, [_St(env)])
+        st0 = _St(env)
+        if carry:
+            kept = copy.deepcopy({k: carry[k] for k in PROCESS_STATE if k in carry})
+            st0.flags.update(kept)
+        outs = self.block(node.body, [st0])
         res = []
         for st, c in outs:
             if c is not None and c[0] == 'raise':
@@ -3123,45 +3357,69 @@ def refusal_tables(prog, m, max_n: int = 3) -> dict:
         first = next((x for x in walk_no_nested(mg.node) if isinstance(x, ast.Attribute) and x.attr in attrs), None)
         return first.lineno if first is not None else line0
 
-    def table(cases, show, is_uniform, what, describe=None):
-        """-> (verdict, text, line, accepted uniform results)"""
-        n_paths, consulted, where, accepted, asserts, uniform = 0, False, None, [], 0, []
+    def table(cases, show, is_uniform, what, describe=None, reported=()):
+        """-> (verdict, text, line), accepted uniform results, wrongly refused uniform cases [(case, raise node)];
+        reported: raise statements that another table has already shown to refuse valid inputs (a uniform case refused
+        there is that table's finding, not one of this table)"""
+        n_paths, consulted, where, accepted, asserts, uniform, wrong = 0, False, None, [], 0, [], []
         for case in cases:
             res, why = interpret(*case)
             if why is not None:
-                return (None, f'{show(case)}: {why}', line0), []
+                return (None, f'{show(case)}: {why}', line0), [], []
             n_paths += len(res)
             consulted = consulted or any(r[2] for r in res)
             kinds = {r[0] for r in res}
             if not res:
-                return (None, f'{show(case)}: every path of the interpretation is lost to a refusal the model does not vary', line0), []
+                return (None, f'{show(case)}: every path of the interpretation is lost to a refusal the model does not vary', line0), [], []
             if is_uniform(case):
                 if 'accepted' not in kinds:
+                    # every path that the model follows to its end reaches a raise of merge whose tests had known values
+                    # (a raise behind an opaque test is dropped, not counted): a valid list is refused
+                    nodes = [r[1] for r in res]
+                    if all(isinstance(x, ast.Raise) and _within(x, mg.node) for x in nodes):
+                        if not all(any(x is y for y in reported) for x in nodes):
+                            wrong.append((case, nodes[0]))
+                        continue
                     return (None, f'the interpretation refuses the uniform inputs {show(case)} (or loses every path): '
-                                  f'model not faithful', line0), []
+                                  f'model not faithful', line0), [], []
                 uniform.append((case, [r for r in res if r[0] == 'accepted']))
                 continue
             if kinds == {'refused'}:
+                if all(any(r[1] is y for y in reported) for r in res):
+                    return (None, f'{show(case)} is refused only where valid inputs are refused too', line0), [], []
                 where = where or next(r[1] for r in res if r[0] == 'refused')
             elif 'refused' in kinds:
-                return (None, f'{show(case)} is refused on some paths and accepted on others', line0), []
+                return (None, f'{show(case)} is refused on some paths and accepted on others', line0), [], []
             else:
                 accepted.append(case)
                 asserts += sum(r[4] for r in res)
         n_bad = sum(1 for c in cases if not is_uniform(c))
+        if wrong:
+            at = wrong[0][1]
+            msg = _strip(at.exc)[:90] if at.exc is not None else 'raise'
+            some = ', '.join(show(c) for c, _ in wrong[:3])
+            n_uni = sum(1 for c in cases if is_uniform(c))
+            text = (f'merge refuses valid inputs: the inputs {some} - in which nothing differs - reach `raise {msg}` on every '
+                    f'path ({len(wrong)} of the {n_uni} uniform sequences up to length {max_n} are refused)')
+            if accepted:
+                text += (f'; and the inputs {", ".join(show(c) for c in accepted[:3])} with {what} reach the end of merge without '
+                         f'a raise ({len(accepted)} of {n_bad})' + (describe(accepted, wrong) if describe is not None else ''))
+            elif describe is not None:
+                text += describe(accepted, wrong)
+            return (False, text, at.lineno), uniform, wrong
         if not accepted:
             return (True, f'every one of the {n_bad} sequences of up to {max_n} inputs with {what} reaches a raise '
-                          f'({len(cases)} sequences, {n_paths} paths interpreted)', getattr(where, 'lineno', line0)), uniform
+                          f'({len(cases)} sequences, {n_paths} paths interpreted)', getattr(where, 'lineno', line0)), uniform, wrong
         if not consulted and seen_foreign[0]:
             return (None, f'nothing the model varies is tested, but refusals hang on opaque tests about the inputs: {what} may be '
-                          f'tested in a way the model does not know', line0), uniform
+                          f'tested in a way the model does not know', line0), uniform, wrong
         if not consulted:
-            return (False, f'merge no longer refuses {what}: nothing on its paths tests it', line0), uniform
+            return (False, f'merge no longer refuses {what}: nothing on its paths tests it', line0), uniform, wrong
         some = ', '.join(show(c) for c in accepted[:3])
         return (False, f'merge no longer refuses every list with {what}: the inputs {some} reach the end of merge without a raise '
                        f'({len(accepted)} of the {n_bad} such sequences up to length {max_n} are accepted'
                        + (', a failing `assert` not counting as a refusal' if asserts else '') + ')'
-                       + (describe(accepted) if describe is not None else ''), line0), uniform
+                       + (describe(accepted, wrong) if describe is not None else ''), line0), uniform, wrong
 
     def done(**kw):
         _TABLES[key] = (prog, kw)
@@ -3171,8 +3429,21 @@ def refusal_tables(prog, m, max_n: int = 3) -> dict:
     def show_id(case):
         return '[' + ', '.join('identified' if x else 'unidentified' for x in case[0]) + ']'
     id_cases = [(seq,) for n in range(1, max_n + 1) for seq in itertools.product((True, False), repeat=n)]
-    mixed, uniform = table(id_cases, show_id, lambda c: len(set(c[0])) == 1, 'mixed identifier use')
-    if mixed[0] is False:
+    def describe_id(accepted, wrong):
+        """what the accepted mixed sequences have in common: an input that takes no part in the comparison"""
+        seqs = [c[0] for c in accepted]
+        if not seqs:
+            return ''
+        for drop, name in ((0, 'first'), (-1, 'last')):
+            rest = [q[1:] if drop == 0 else q[:-1] for q in seqs]
+            if all(len(set(r)) == 1 for r in rest) and \
+                    len(seqs) == sum(1 for (q,) in id_cases if len(set(q)) > 1 and len(set(q[1:] if drop == 0 else q[:-1])) == 1):
+                return (f': exactly the sequences in which all inputs but the {name} agree are accepted - the {name} input takes '
+                        f'no part in the consistency test' +
+                        (' (a single input leaves nothing to test, and the test refuses that)' if wrong else ''))
+        return ''
+    mixed, uniform, wrong_id = table(id_cases, show_id, lambda c: len(set(c[0])) == 1, 'mixed identifier use', describe_id)
+    if mixed[0] is False and not wrong_id:
         mixed = (False, mixed[1] + ': a store that is neither fully identified nor unidentified is produced', line_of(ID_ATTRS))
     sites = [c for c in walk_no_nested(mg.node) if isinstance(c, ast.Call) and call_name(c).split('.')[-1] == builder.name]
     built_line = sites[0].lineno if sites else line0
@@ -3201,9 +3472,11 @@ def refusal_tables(prog, m, max_n: int = 3) -> dict:
         return '[' + ', '.join('{' + ', '.join(sorted(f)) + '}' for f in case[1]) + ']'
     fs_cases = [((True,) * n, seq) for n in range(1, max_n + 1) for seq in itertools.product((A, B, C), repeat=n)]
 
-    def describe_fs(accepted):
+    def describe_fs(accepted, wrong=()):
         """what the accepted sequences have in common (which half of the comparison is missing)"""
         seqs = [c[1] for c in accepted]
+        if not seqs:
+            return ''
         if all(all(f <= q[0] for f in q) for q in seqs):
             return ('; in every accepted sequence the later inputs only lack field sets of the first input: the comparison is '
                     'one-sided - an input with an additional field set is refused, one with a missing field set is not')
@@ -3213,8 +3486,9 @@ def refusal_tables(prog, m, max_n: int = 3) -> dict:
         if all(len({len(f) for f in q}) == 1 for q in seqs):
             return '; in every accepted sequence the inputs have equally many field sets: their number is compared, not their names'
         return ''
-    fieldsets, _ = table(fs_cases, show_fs, lambda c: len(set(c[1])) == 1, 'differing field sets', describe_fs)
-    if fieldsets[0] is False:
+    fieldsets, _, wrong_fs = table(fs_cases, show_fs, lambda c: len(set(c[1])) == 1, 'differing field sets', describe_fs,
+                                   reported=[n for _, n in wrong_id])
+    if fieldsets[0] is False and not wrong_fs:
         fieldsets = (False, fieldsets[1], line_of(('_nc',)))
     return done(mixed=mixed, built=built, fieldsets=fieldsets)
 
@@ -3274,7 +3548,7 @@ def _merged_index_table(ctx, prog, m, max_parts, max_size):
     srcs = sorted({w[1].src.split(' ', 1)[1] for w in walk if isinstance(w[1], Seq)})
     if len(srcs) != 1:
         return None, 'the list of inputs of the index builder is not one of its parameters', line0
-    n_runs = 0
+    n_runs = n_again = 0
     # what the builder is handed per input: the input itself, or what merge makes of it (a record of its name and its
     # length, ...) - the element of the argument of merge's call, evaluated by the interpreter on the model inputs
     handed = _builder_elem(ctx, prog, m, srcs[0])
@@ -3307,9 +3581,69 @@ def _merged_index_table(ctx, prog, m, max_parts, max_size):
                         text += ': the offset of a part is not the number of trajectories in the parts before it'
                     if v is not True:
                         return v, text, _repr_line(r[5]) or line0
+                # a merge is not the only one of its process: what the builder keeps outside its own call (values bound in a
+                # class body, default values of parameters) is still there when it is called again
+                kept = next((r[5] for r in done if _kept_state(r[5])), None)
+                if kept is not None and not wide and n_again < 6:
+                    n_again += 1
+                    try:
+                        given = None
+                        if handed is not None:
+                            given = {srcs[0]: AV('l', [tt.ev(handed, _St({ELEM: AV('o', f'input {k}', False, k)})) for k in range(n)])}
+                        res = tt.run(srcs[0], keep_flags=True, bindings=given, carry=kept)
+                    except TTUndecided as ex:
+                        return None, f'parts of sizes {sizes}, second call in the same process: {ex}', line0
+                    except (_Raised, RecursionError):
+                        return None, f'parts of sizes {sizes}, second call in the same process: an exception escaped', line0
+                    again = [r for r in res if r[0] == 'accepted']
+                    if not again or len(again) != len(res):
+                        return None, f'parts of sizes {sizes}: a second call of the builder does not complete on every path', line0
+                    for r in again:
+                        v, text = _check_index_writes(r[5], where, f'for parts of sizes {sizes}, when an index has been built '
+                                                                   f'before in the same process (for parts of the same sizes),')
+                        if v is not True:
+                            names, ln = _changed_state(prog, kept)
+                            if v is False and names:
+                                text += (f': the first index built in a process is right, every later one is not - the builder keeps '
+                                         f'state between calls in {names}, which is one object for all calls (bound once, when the '
+                                         f'class / function is defined) and is changed in place; it belongs into the instance '
+                                         f'(`__init__`) / the call')
+                            return v, text, ln or line0
     return True, (f'for every tuple of up to {max_parts} parts with 1..{max_size} trajectories each ({n_runs} runs, with small '
                   f'identifiers and with identifiers above 2**53) the stored index maps every identifier, unchanged, to the position '
                   f'of its trajectory in the concatenation of the parts'), line0
+
+
+def _kept_state(flags) -> bool:
+    """does the record of a path hold mutable values that outlive the call (class attributes, parameter defaults)?"""
+    flags = flags or {}
+    return any(v.k in ('l', 's', 'd', 'u') for attrs in flags.get('classes', {}).values() for v in attrs.values()) or \
+        any(v.k in ('l', 's', 'd', 'u') for v in flags.get('defaults', {}).values())
+
+
+def _changed_state(prog, flags):
+    """-> (text naming the class attributes / parameter defaults whose value at the end of the path is not the one they
+    were bound to, line of the first)"""
+    names, line = [], 0
+    for key, attrs in (flags or {}).get('classes', {}).items():
+        rel, q = key
+        before = flags.get('classes0', {}).get(key, {})
+        for a, v in attrs.items():
+            if repr(v) != before.get(a):
+                names.append(f'the class attribute `{q}.{a}`')
+                if not line:
+                    try:
+                        cls = prog.module(rel).classes[q]
+                        line = next((b.lineno for b in cls.node.body if isinstance(b, (ast.Assign, ast.AnnAssign)) and
+                                     a in [n for t in (b.targets if isinstance(b, ast.Assign) else [b.target])
+                                           for n in assigned_names(t)]), 0)
+                    except Exception:
+                        line = 0
+    for key, v in (flags or {}).get('defaults', {}).items():
+        if repr(v) != flags.get('defaults0', {}).get(key):
+            names.append(f'the default value of parameter `{key[2]}` of `{key[3]}`')
+            line = line or key[0]
+    return ', '.join(names[:4]), line
 
 
 def _builder_elem(ctx, prog, m, pname: str):
